@@ -149,6 +149,7 @@ func init() {
 			ref.Writes = genWrites(r, tr, ref.LEMode)
 			ref.PiggybackExtra = r.Pick(0, 0, 1, 500, 1009, 2000)
 			ref.AckOnly = r.Bool(0.3)
+			ref.OpenRespPayload = mode == "server" && r.Bool(0.5)
 			for i := 0; i < 3; i++ {
 				ref.Pad1 = append(ref.Pad1, r.Pick(0, 0, 1, 255, r.Intn(256)))
 				ref.Pad2 = append(ref.Pad2, r.Pick(0, 0, 1, 255, r.Intn(256)))
